@@ -626,7 +626,7 @@ func (push *Push) runTask(input *pushNotify) {
 				if lastProcessedseq >= lastesBlockSeq {
 					continue
 				}
-				if lastProcessedseq <= 0 { //如果不配置startSeq 则默认从最新的seq开始
+				if lastProcessedseq < 0 { //如果不配置startSeq 则默认从最新的seq开始 (0 is a valid sequence: the genesis block)
 					lastProcessedseq = lastesBlockSeq
 					continue
 				}
